@@ -29,7 +29,66 @@ def frame(fr, lit):
     return 'l = { %s , %s }\n' % (lit, lit)
 
 
+SEQ_LITS = [['sq', 'abc'], ['dq', 'abc'], ['uq', 'abc'], ['uq', '${a}'], ['uq', '${n:-dflt}'], ['uq', '${}'], ['dq', 'x${a}y'], ['dq', ''], ['sq', ''],
+            ['dq', '\\x41\\101'], ['sq', "q\\'q"], ['uq', 'w/x'], ['dq', 'two\nlines'], ['sq', 'it\\\\s']]
+SEQ_GAPS = ['\n', ' ', '\n# c\n', ' /* c */ ', '\n// c ${a}\n', ' /* a * b */\n']
+
+
+def seq_specs(tier, seed):
+    """several literals in ONE parse: a literal must not depend on the token lexed before it"""
+    import itertools as it
+    rng = core.seeded_rng(seed, 'c03seq')
+    n = len(SEQ_LITS)
+    for a, b, c in it.product(range(n), repeat=3):
+        yield {'seq': [a, b, c], 'env': 'set' if (a + b + c) % 2 else 'unset', 'gaps': [rng.randrange(len(SEQ_GAPS)) for _ in range(3)]}
+    for _ in range(2000 if tier == 'quick' else 50000):
+        k = rng.randint(4, 6)
+        yield {'seq': [rng.randrange(n) for _ in range(k)], 'env': rng.choice(['set', 'unset', 'meta']), 'gaps': [rng.randrange(len(SEQ_GAPS)) for _ in range(k)]}
+
+
+def seq_script(spec):
+    names = ['s%d' % k for k in range(len(spec['seq']))]
+    L = ['schema 0'] + [opt_line(nm, 'str', dstr='DEFAULT') for nm in names] + ['endschema']
+    for nm in ('a', 'n'):
+        L.append('unsetenv %s' % hx(nm) if spec['env'] == 'unset' else 'setenv %s %s' % (hx(nm), hx(ENVVALS[spec['env']])))
+    text = ''
+    for k, li in enumerate(spec['seq']):
+        form, body = SEQ_LITS[li]
+        text += '%s = %s%s' % (names[k], model_lex.render(form, body), SEQ_GAPS[spec['gaps'][k]])
+    L += ['init 0 0 0', 'parse_buf 0 %s' % hx(text + '\n')]
+    L += ['get 0 str %s 0' % hx(nm) for nm in names]
+    L += ['free 0', 'unsetenv %s' % hx('a'), 'unsetenv %s' % hx('n')]
+    return '\n'.join(L)
+
+
+def seq_judge(spec, events, death):
+    v = Verdict()
+    if death is not None:
+        v.bad('crash:%s@%s:sequence' % (death['kind'], death['where']), 'sequence %r: %s' % (spec, death['text'][-500:]))
+        return v
+    r = [e for e in events if e.get('ev') == 'r' and e.get('op') == 'parse_buf']
+    g = [e for e in events if e.get('ev') == 'get']
+    env = {} if spec['env'] == 'unset' else {'a': ENVVALS[spec['env']], 'n': ENVVALS[spec['env']]}
+    v.nontrivial = True
+    v.notes['sequence_cases'] = 1
+    if not r or r[0]['rc'] != 0:
+        v.bad('sequence:rejected', 'a sequence of valid literals %r is rejected' % [SEQ_LITS[i] for i in spec['seq']])
+        return v
+    for k, li in enumerate(spec['seq']):
+        form, body = SEQ_LITS[li]
+        exp = model_lex.decode(form, body, env)
+        if exp[0] != 'ok':
+            continue
+        got = unhx(g[k]['v'])
+        if got != exp[1]:
+            prev = SEQ_LITS[spec['seq'][k - 1]] if k else None
+            v.bad('sequence:wrong-value:%s-after-%s' % (form, prev[0] if prev else 'start'), 'literal %r lexed after %r gives %r, expected %r' % (SEQ_LITS[li], prev, got, exp[1]))
+    return v
+
+
 def script(spec):
+    if 'seq' in spec:
+        return seq_script(spec)
     L = ['schema 0', opt_line('s', 'str', dstr='DEFAULT'), opt_line('l', 'str', flags=core.F_LIST, dparsed='{DEFAULT}'), 'endschema']
     for form, body, envmode, fr in spec['lits']:
         for nm in model_lex.names_in(body):
@@ -52,6 +111,8 @@ def script(spec):
 
 
 def judge(spec, events, death):
+    if 'seq' in spec:
+        return seq_judge(spec, events, death)
     v = Verdict()
     if death is not None:
         # attribute to the literal in flight
@@ -138,6 +199,7 @@ def lit_specs(tier, seed):
 
 
 def gen(tier, seed):
+    yield from seq_specs(tier, seed)
     for ch in core.chunks(lit_specs(tier, seed), PER_CASE):
         yield {'lits': ch}
 
@@ -148,8 +210,8 @@ def run(tier, seed, bindirs):
     lj = res.extra.get('literals_judged', 0)
     nt = res.extra.get('nontrivial_literals', set())
     # evidence counts literals, not 40-literal cases
-    res.evaluations = lj + res.extra.get('not_judged_skip', 0) + res.extra.get('not_judged_unspec', 0)
-    res.judged = lj
+    res.evaluations = lj + res.extra.get('not_judged_skip', 0) + res.extra.get('not_judged_unspec', 0) + res.extra.get('sequence_cases', 0)
+    res.judged = lj + res.extra.get('sequence_cases', 0)
     res.nontrivial = nt
     res.extra.pop('nontrivial_literals', None)
     return core.finish(PROP, tier, seed, 'exploration', res, RULE, t0, floor=10000,
